@@ -13,6 +13,7 @@ import asyncio
 import hashlib
 import random
 import re
+import signal
 import traceback
 from typing import Any, Iterable
 
@@ -24,6 +25,21 @@ from ..runner import Check
 from ..servers import make_env
 
 BUDGET = StepBudget(5_000_000)
+CPU_LIMIT = 25.0     # CPU seconds (ITIMER_VIRTUAL) for one command line
+
+
+def arm_cpu() -> None:
+    """(Re)start the kernel's CPU-time timer for this process.  Its default
+    action kills the worker, which the runner reports through
+    on_worker_death: a command that burns 25 CPU seconds inside C code (e.g.
+    a backtracking regex) never reaches the Python-level step budget.  CPU
+    time, unlike wall-clock time, does not depend on machine load."""
+    signal.signal(signal.SIGVTALRM, signal.SIG_DFL)
+    signal.setitimer(signal.ITIMER_VIRTUAL, CPU_LIMIT)
+
+
+def disarm_cpu() -> None:
+    signal.setitimer(signal.ITIMER_VIRTUAL, 0)
 _lit_end = re.compile(rb'\{(\d+)(\+?)\}\r?\n\Z')
 
 FETCH_ATTRS = [
@@ -136,6 +152,7 @@ async def send_line(ctx: Ctx, conn: Conn, line: bytes, what: str) -> str:
     loop = conn.loop
     before = len(conn.responses)
     BUDGET.reset()
+    arm_cpu()
     conn.feed(line)
     ctx.count('lines')
     pending = line
@@ -319,6 +336,7 @@ async def case_sieve(spec: dict[str, Any], ctx: Ctx) -> None:
         line = body[:60000] + b'\r\n'
         before = len(conn.out)
         BUDGET.reset()
+        arm_cpu()
         conn.feed(line)
         ctx.count('sieve_lines')
         rounds = 0
@@ -507,10 +525,21 @@ class C06(Check):
                        'nsess': nsess, 'nmsgs': rng.randint(2, 5),
                        'ncmds': rng.randint(3, 8),
                        'sched': {'max_delay': rng.choice([0, 2, 8]),
-                                 'max_drain': rng.choice([0, 3])}}
+                                 'max_drain': rng.choice([0, 3])},
+                       'deliverer': rng.random() < 0.6}
 
     def setup_worker(self) -> None:
         BUDGET.install()
+
+    def on_worker_death(self, rec: dict[str, Any]) -> dict[str, Any] | None:
+        if rec.get('status') == -signal.SIGVTALRM:
+            return {'mech': 'hang:cpu-time',
+                    'detail': 'a single command line consumed more than %d '
+                    'CPU seconds without the interpreter making progress '
+                    '(no Python-level step budget event): case %r' % (
+                        CPU_LIMIT, rec.get('spec')),
+                    'witness': {'spec': rec.get('spec')}}
+        return None
 
     def run_case(self, spec: dict[str, Any]) -> dict[str, Any]:
         random.seed(spec['seed'])
@@ -526,6 +555,7 @@ class C06(Check):
 
         aborted = None
         try:
+            arm_cpu()
             L.run(main, max_steps=3_000_000)
         except L.Deadlock:
             ctx.report('deadlock', 'nothing runnable although the harness '
@@ -533,6 +563,7 @@ class C06(Check):
         except BudgetExceeded:
             ctx.report('hang', 'step budget exceeded outside a connection '
                        'task')
+        disarm_cpu()
         ctx.counters['max_steps_per_line'] = 0
         sig = hashlib.sha1(repr(sorted(ctx.kinds)).encode()).hexdigest()[:16]
         judged = ctx.counters.get('lines', 0) + \
